@@ -28,7 +28,8 @@ def make_decider(cfg):
     from bobocep.cep.engine.decider.decider import BoboDecider
     from bobocep.cep.phenom.phenom import BoboPhenomenon
     from bobocep.cep.engine.decider.pubsub import BoboDeciderSubscriber
-    phen = [BoboPhenomenon(name=PL.phname(k), patterns=[PL.make_pattern(p) for p in ps]) for k, ps in cfg["phen"]]
+    mode = cfg.get("mode")
+    phen = [BoboPhenomenon(name=PL.phname(k), patterns=[PL.make_pattern(p, mode) for p in ps]) for k, ps in cfg["phen"]]
     gen = CountGen(cfg["idbase"])
     dec = BoboDecider(phenomena=phen, gen_event_id=CountGen(10 ** 9), gen_run_id=gen, max_cache=cfg["maxcache"])
 
@@ -36,6 +37,7 @@ def make_decider(cfg):
         pass
     rec = R()
     dec.subscribe(rec)
+    dec.verif_textdata = bool(mode and mode.get("typed"))
     return dec, rec
 
 
@@ -48,7 +50,7 @@ def apply_op(dec, rec, op):
     """op = ("local", event tuple) | ("remote", note dict).  Returns (encoded observation, raw note lists)."""
     n0 = len(rec.calls)
     if op[0] == "local":
-        dec.on_receiver_update(PL.make_event(op[1]))
+        dec.on_receiver_update(PL.make_event(op[1], getattr(dec, "verif_textdata", False)))
         try:
             dec.update()
         except Exception as ex:   # BoboDeciderError (duplicate run id) escapes update()
@@ -56,8 +58,12 @@ def apply_op(dec, rec, op):
         tag = -7
     else:
         n = op[1]
-        dec.on_distributed_update([PL.make_ser(r) for r in n["comp"]], [PL.make_ser(r) for r in n["halt"]],
-                                  [PL.make_ser(r) for r in n["upd"]])
+        try:
+            dec.on_distributed_update([PL.make_ser(r) for r in n["comp"]], [PL.make_ser(r) for r in n["halt"]],
+                                      [PL.make_ser(r) for r in n["upd"]])
+        except Exception as ex:   # a well-formed remote note must be applied, never refused with an exception
+            dec.verif_error = "%s: %s" % (type(ex).__name__, ex)
+            return [-9, 4], None
         tag = -8
     calls = rec.calls[n0:]
     if calls:
@@ -66,6 +72,12 @@ def apply_op(dec, rec, op):
         comp, halt, upd = [], [], []
     out = [tag] + PL.enc_list(PL.enc_ser, comp) + PL.enc_list(PL.enc_ser, halt) + PL.enc_list(PL.enc_ser, upd)
     return out + enc_state(dec), (comp, halt, upd)
+
+
+def remote_raise_failure(dec, k):
+    return dict(signature="decider-raised-on-remote-update", step=k,
+                what="on_distributed_update raised on a well-formed note (operation %d): %s; the rest of the note is "
+                     "not applied and subscribers are not notified" % (k, getattr(dec, "verif_error", "?")), detail=None)
 
 
 def run_ops(cfg, ops):
